@@ -16,7 +16,7 @@ import datetime, re
 from bare_script import parse_script, execute_script
 from bare_script.runtime import BareScriptRuntimeError
 from vf.gen import skel
-from vf.hlib.util import untraced, LIB_NAMES
+from vf.hlib.util import untraced, LIB_NAMES, norm_error
 
 PROG = {prog!r}
 NARR = {narr}
@@ -84,7 +84,7 @@ def run_real(bits, ns, px):
     try:
         r = ('ok', execute_script(MODEL, {{'globals': g, 'maxStatements': 300}}))
     except BareScriptRuntimeError as e:
-        r = ('err', 'out' if 'oracle exhausted' in str(e) else str(e))
+        r = ('err', 'out' if 'oracle exhausted' in str(e) else norm_error(e))
     with untraced():       # harness-side bookkeeping over concrete key strings only; values are not inspected
         names = [n for n in g if n not in LIB_NAMES and not n.startswith('__bareScript') and n not in ('cc', 'tt', 'aa', 'vv')]
     final = dict((n, g[n]) for n in names if not callable(g[n]))
@@ -123,7 +123,7 @@ def run_ref(bits, ns, px, f7=False):
     except skel.OracleOut:
         r = ('err', 'out')
     except skel.RefError as e:
-        r = ('err', str(e))
+        r = ('err', norm_error(e))
     except skel.RefBudget:
         r = ('budget', None)
     final = dict((n, v) for n, v in ref.g.items() if not isinstance(v, tuple))
